@@ -137,6 +137,10 @@ func (w *world) RoundTrip(req *http.Request) (*http.Response, error) {
 	rec := reqRec{Method: req.Method, Node: node, Path: req.URL.Path}
 	if len(w.log) >= w.budget {
 		w.overrun = true // the call does not terminate on its own: starve it
+		if len(w.log) >= 20*w.budget {
+			// ... and if it keeps asking regardless, stop it for good (it would spin for ever)
+			panic("the call keeps sending requests without end")
+		}
 		w.log = append(w.log, rec)
 		return nil, errors.New("verif: request budget of the call exhausted")
 	}
@@ -249,6 +253,9 @@ func (s *sys) call(kind string) (res callResult, panicked string) {
 }
 
 func (s *sys) apply(e Event) (callResult, string) {
+	s.w.mu.Lock()
+	s.w.log, s.w.overrun = nil, false
+	s.w.mu.Unlock()
 	switch e.Kind {
 	case "down":
 		s.w.mu.Lock()
@@ -383,7 +390,11 @@ func contains(l []string, x string) bool {
 func checkCall(r *ev.Run, cf config, path []Event, e Event, primBefore string, epsBefore []client.VerifEndpoint, res callResult, pan string, w *world) {
 	cd := caseDesc{cf, path, res}
 	if pan != "" {
-		r.Violation("client call fails internally or hangs ("+e.Kind+"): "+strings.Split(pan, "\n")[0], cd)
+		if strings.Contains(pan, "keeps sending requests without end") {
+			r.Violation("client call does not terminate within a bounded number of requests ("+e.Kind+")", cd)
+		} else {
+			r.Violation("client call fails internally or hangs ("+e.Kind+"): "+strings.Split(pan, "\n")[0], cd)
+		}
 		return
 	}
 	if w.overrun {
@@ -592,6 +603,41 @@ func explore(r *ev.Run, cf config, depth int) {
 	}
 }
 
+// flapping: fixed deeper histories that the breadth-first search reaches only in the thorough tier: a node
+// fails under a request, comes back and is revived (health check) without serving a real request, fails
+// again, and is asked again. Every oracle of the search applies to every step.
+func flapping(r *ev.Run, cf config) {
+	for _, x := range []int{0, 1} {
+		for _, kind := range []string{"read", "add"} {
+			path := []Event{{"down", x}, {kind, 0}, {"up", x}, {"health", 0}, {"down", x}, {kind, 0}, {kind, 0}, {"up", x}, {kind, 0}}
+			s, err := replay(cf, nil)
+			if err != nil {
+				continue
+			}
+			for i, e := range path {
+				ok := false
+				for _, en := range s.enabled() {
+					if en == e {
+						ok = true
+					}
+				}
+				if !ok && e.Kind == "health" {
+					continue // health checks are not configured for this client
+				}
+				if !ok {
+					break
+				}
+				prim, eps, _ := s.c.VerifTopology()
+				res, pan := s.apply(e)
+				checkCall(r, cf, path[:i+1], e, prim, eps, res, pan, s.w)
+				r.Transitions(1)
+			}
+			probe(r, cf, path)
+			r.Distinct(fmt.Sprintf("%v|flapping|%d|%s", cf, x, kind))
+		}
+	}
+}
+
 func TestC20(t *testing.T) {
 	r := ev.Begin("C20")
 	r.Rule("explicit-state BFS per client configuration (5 read preferences x discovery on/off x health checks on/off x address style); state = (world: 3 nodes up/down + leader; client: believed primary, ordered endpoint list with role and dead mark, round-robin cursor); transitions = node down/up, leader change, Add (write), MembershipDigest (read), discovery, health check - each call runs the real client.HTTPClient against the real apihttp mux of every node through a scripted RoundTripper; per call: writes only to the believed leader or a redirect's leader, no read to a dead-marked endpoint, bounded number of requests; per state (on a replayed duplicate): NextReadEndpoint for every preference returns only live permitted endpoints (reference spec), returns one whenever one exists, cycles fairly over 2 rounds, and two consecutive writes converge on the leader when all nodes are up")
@@ -640,6 +686,7 @@ func TestC20(t *testing.T) {
 				c := cfgs[i]
 				c.ShardOrder = order
 				explore(r, c, depth)
+				flapping(r, c)
 			}
 		})
 	}
